@@ -555,6 +555,9 @@ void vf_slice_0()
 
 // =================================================================================== slice 1
 #if VF_IN_SLICE(1)
+#include <fcppt/move_clear.hpp>
+#include <fcppt/move_if_rvalue.hpp>
+#include <fcppt/move_iterator_if_rvalue.hpp>
 #include <fcppt/container/get_or_insert.hpp>
 #include <fcppt/container/get_or_insert_with_result.hpp>
 #include <fcppt/container/insert.hpp>
@@ -791,6 +794,65 @@ void t_setop(std::string const &name, setop op)
       [&](case_t &cx, unsigned, std::vector<int> const &, auto const &r, auto const &) { cx.result_of(r, &want); }, no_rvalues{});
 }
 
+// the value-category dispatch helpers themselves
+void t_dispatch()
+{
+  run_case("move_if_rvalue", "-", "result types", [&](case_t &cx) {
+    E x = mk<E>(cx);
+    E const &cx_ref = x;
+    bool const ok =
+        std::is_same_v<decltype(fcppt::move_if_rvalue<std::vector<E> &>(x)), E &> &&
+        std::is_same_v<decltype(fcppt::move_if_rvalue<std::vector<E> const &>(x)), E &> &&
+        std::is_same_v<decltype(fcppt::move_if_rvalue<std::vector<E>>(x)), E &&> &&
+        std::is_same_v<decltype(fcppt::move_if_rvalue<std::vector<E> &&>(x)), E &&> &&
+        std::is_same_v<decltype(fcppt::move_if_rvalue<std::vector<E> &>(cx_ref)), E const &> &&
+        std::is_same_v<decltype(fcppt::move_if_rvalue<std::vector<E> &>(std::move(x))), E &&>;
+    using it = std::vector<E>::iterator;
+    bool const ok_it = std::is_same_v<decltype(fcppt::move_iterator_if_rvalue<std::vector<E> &>(std::declval<it const &>())), it> &&
+                       std::is_same_v<decltype(fcppt::move_iterator_if_rvalue<std::vector<E>>(std::declval<it const &>())),
+                                      std::move_iterator<it>>;
+    if (!ok)
+      cx.viol("result-type", "mismatch", "move_if_rvalue<Type>(arg) does not yield an lvalue for lvalue Type / an rvalue for rvalue Type");
+    if (!ok_it)
+      cx.viol("iterator-type", "mismatch", "move_iterator_if_rvalue<Type>(it) does not yield it / move_iterator<it>");
+#ifndef C05_MO
+    // and at run time: an lvalue Type leaves the object alone, an rvalue Type lets it be moved
+    cx.arg(0, cat_l, x);
+    cx.begin();
+    E y(fcppt::move_if_rvalue<std::vector<E> &>(x));
+    cx.end();
+    cx.unchanged(0, x);
+    E z(fcppt::move_if_rvalue<std::vector<E>>(y));
+    std::vector<int> want{z.peek()};
+    cx.result_of(z, &want);
+#endif
+  });
+  // move_clear: everything is moved out, a default constructed value is left behind
+  for (unsigned n = 0; n < nmax(); ++n)
+    run_case("move_clear<vector>", "subject", "n=" + std::to_string(n), [&](case_t &cx) {
+      std::vector<E> a = make_seq<std::vector<E>>(cx, n);
+      std::vector<int> all = payloads_of(snapshot(a));
+      cx.arg(0, cat_r, a); // documented to be moved out of
+      cx.begin();
+      std::vector<E> r = fcppt::move_clear(a);
+      cx.end();
+      cx.result_of(r, &all);
+      if (!a.empty())
+        cx.viol("not-cleared", "mismatch", "the source is not empty afterwards");
+    });
+  run_case("move_clear<std::array2>", "subject", "2 elements", [&](case_t &cx) {
+    std::array<E, 2> a = make_std_array<E, 2>(cx);
+    std::vector<int> all = payloads_of(snapshot(a));
+    cx.arg(0, cat_r, a);
+    cx.begin();
+    std::array<E, 2> r = fcppt::move_clear(a);
+    cx.end();
+    cx.result_of(r, &all);
+    if (!payloads_of(snapshot(a)).empty())
+      cx.viol("not-cleared", "mismatch", "the source still holds " + show(snapshot(a)));
+  });
+}
+
 void t_make()
 {
   // container::make "creates a container from variadic arguments by moving": rvalue arguments only
@@ -867,6 +929,7 @@ void vf_slice_1()
   t_pop<std::deque<E>, false>("deque");
   t_pop<std::list<E>, false>("list");
   t_make();
+  t_dispatch();
 #ifndef C05_MO
   // these copy by design (key_type const &, Set const &): not part of the move-only build
   t_get_or_insert<std::map<E, F>>("map", false);
@@ -1016,10 +1079,19 @@ void t_optional_unary()
         return std::make_tuple(sh == 0 ? oo{} : oo{mk_opt(cx, sh == 2)});
       },
       [](auto c0, auto &a) { return fcppt::optional::join(FW(c0, a)); });
+  // (C05_NO_CONST_TO_CONTAINER is set by the registry for trees in which the const lvalue flavour is a hard compile error)
+  auto tc_filter = [](auto c0) {
+#ifdef C05_NO_CONST_TO_CONTAINER
+    return std::bool_constant<decltype(c0)::value != cat_c>{};
+#else
+    (void)c0;
+    return std::true_type{};
+#endif
+  };
   nary<1>("optional::to_container<vector>", 2, mk1,
-          [](auto c0, auto &a) { return fcppt::optional::to_container<std::vector<E>>(FW(c0, a)); });
+          [](auto c0, auto &a) { return fcppt::optional::to_container<std::vector<E>>(FW(c0, a)); }, keep_all{}, tc_filter);
   nary<1>("optional::to_container<list>", 2, mk1,
-          [](auto c0, auto &a) { return fcppt::optional::to_container<std::list<E>>(FW(c0, a)); });
+          [](auto c0, auto &a) { return fcppt::optional::to_container<std::list<E>>(FW(c0, a)); }, keep_all{}, tc_filter);
 }
 
 void t_optional_seq()
